@@ -174,6 +174,167 @@ theorem pickNext_progress {st : St σ} {delay lim : Nat} (fuel : Nat) (hn : NoMa
   simp only [bind, Except.bind, pure, Except.pure]
   exact ⟨_, _, rfl⟩
 
+/-! ### the network stack and `trigger_update` succeed -/
+
+end
+
+theorem simNetworkStack_ok {next : SimEvent} {sq : SimQueue} {byp : Bool} {net : Bottleneck} {now : Int}
+    (hok : pktOK next = true)
+    (hcount : next.event = .tunnelSent → ((winOf net next.client).add now).1 ≤ net.ppsLimit) :
+    ∃ na sq' net', simNetworkStack next sq byp net now = .ok (na, sq', net') := by
+  unfold simNetworkStack
+  split
+  · exact ⟨_, _, _, rfl⟩
+  · rename_i m hev
+    simp [pktOK, hev] at hok
+  · rename_i hev
+    have hc := hcount hev
+    have hle : ¬ ((if next.client then net.clientWindow else net.serverWindow).add now).1 >
+        (if next.client then { net with clientWindow := ((if next.client then net.clientWindow else net.serverWindow).add now).2 }
+          else { net with serverWindow := ((if next.client then net.clientWindow else net.serverWindow).add now).2 }).ppsLimit := by
+      unfold winOf at hc
+      cases hcl : next.client <;> simp [hcl] at hc ⊢ <;> omega
+    unfold netTunnelSent Bottleneck.sample Bottleneck.ppsDelay
+    simp only [hle, if_false, bind, Except.bind, pure, Except.pure]
+    unfold Bottleneck.sampleResult
+    simp only [Nat.lt_irrefl, if_false, gt_iff_lt, pure, Except.pure, ppsAgg, Except.map]
+    exact ⟨_, _, _, rfl⟩
+  · split <;> exact ⟨_, _, _, rfl⟩
+  · exact ⟨_, _, _, rfl⟩
+
+section
+variable {σ : Type} (ρ : Oracle σ)
+
+/-- a framework without machines that is fed a packet event does not fault -/
+theorem triggerEvents_quiet_fault (e : TEvent) (t : Int) (s : Fw σ) (h : Quiet s)
+    (he : e = .normalSent ∨ e = .tunnelSent ∨ e = .tunnelRecv ∨ e = .normalRecv) :
+    (triggerEvents ρ [e] t s).fault = s.fault := by
+  obtain ⟨hrt, hact, hsig⟩ := h
+  have hq : Quiet (s.callStart t) := by
+    simp [Quiet, Fw.callStart, hrt, hact, hsig]
+  have hf : (s.callStart t).fault = s.fault := by simp [Fw.callStart]
+  have h1 := processEvent_quiet ρ e _ hq
+  have hpf : (processEvent ρ e (s.callStart t)).fault = (s.callStart t).fault := by
+    rcases he with he | he | he | he <;> subst he <;> simp [processEvent, transitionAll, hq.1]
+  unfold triggerEvents
+  simp only [List.foldl_cons, List.foldl_nil]
+  have hsr : signalRound ρ (processEvent ρ e (s.callStart t)) = processEvent ρ e (s.callStart t) := by
+    unfold signalRound
+    simp [h1.1.2.2]
+  rw [hsr, hpf, hf]
+
+theorem pktOK_event {e : SimEvent} (h : pktOK e = true) :
+    e.event = .normalSent ∨ e.event = .tunnelSent ∨ e.event = .tunnelRecv ∨ e.event = .normalRecv := by
+  simp only [pktOK, Bool.and_eq_true, Bool.or_eq_true, beq_iff_eq] at h
+  rcases h.2 with ((h | h) | h) | h
+  · exact Or.inl h
+  · exact Or.inr (Or.inl h)
+  · exact Or.inr (Or.inr (Or.inl h))
+  · exact Or.inr (Or.inr (Or.inr h))
+
+/-- `trigger_update` for a packet event on sides without machines and without fault succeeds and
+    leaves both frameworks without fault -/
+theorem triggerUpdate_ok (st : St σ) (next : SimEvent) (hqc : Quiet st.client.fw) (hqs : Quiet st.server.fw)
+    (hfc : st.client.fw.fault = none) (hfs : st.server.fw.fault = none) (hok : pktOK next = true) :
+    ∃ acts st', triggerUpdate ρ st next = .ok (acts, st') ∧ st'.client.fw.fault = none ∧ st'.server.fw.fault = none := by
+  have hq : Quiet (st.side next.client).fw := by
+    unfold St.side; cases next.client <;> simp [hqc, hqs]
+  have hf : (st.side next.client).fw.fault = none := by
+    unfold St.side; cases next.client <;> simp [hfc, hfs]
+  have hq' : Quiet ({ (st.side next.client).fw with rng := st.orc, log := [] } : Fw σ) := hq
+  have ht := triggerEvents_quiet ρ [next.event] st.now _ hq'
+  have hfl := (triggerEvents_quiet_fault ρ next.event st.now _ hq' (pktOK_event hok)).trans hf
+  unfold triggerUpdate
+  simp only [hfl, ht.2.2, applyActions, bind, Except.bind, pure, Except.pure]
+  refine ⟨_, _, rfl, ?_, ?_⟩
+  · cases hc : next.client
+    · simpa [St.setSide, hc] using hfc
+    · simpa [St.setSide, hc] using hfl
+  · cases hc : next.client
+    · simpa [St.setSide, hc] using hfl
+    · simpa [St.setSide, hc] using hfs
+
+/-! ### one iteration succeeds -/
+
+/-- the invariant of a run that makes progress: the exact-run invariant, no framework fault, and
+    the horizon `B` strictly less than `Duration::MAX` after the clock -/
+structure PInv (delay lim : Nat) (L : Bool → List Int) (B : Int) (st : St σ) : Prop where
+  x : XInv delay lim L B st
+  fc : st.client.fw.fault = none
+  fs : st.server.fw.fault = none
+  lt : B - st.now < durMax
+
+theorem reach_ge (delay : Nat) (e : SimEvent) : e.time ≤ reach delay e := by
+  unfold reach; split <;> omega
+
+/-- **One iteration of an exact run succeeds**: with a non-empty queue the iteration returns an
+    event (no fault, not "nothing to do"), and the invariant is kept. -/
+theorem step_progress {delay lim : Nat} {L : Bool → List Int} {B : Int}
+    (hstat : ∀ c t, t ∈ L c →
+      (L c).countP (fun x => decide (x ≤ t) && inWin Gen.SIM_BOTTLENECK_WINDOW_NS t x) ≤ lim)
+    {st : St σ} (hp : PInv delay lim L B st) (hl : st.sq.len ≠ 0) :
+    ∃ r st', step ρ st = .ok (some (r, st')) ∧ PInv delay lim L B st' := by
+  have hx := hp.x
+  have hr : st.sq.AllE fun e => st.now ≤ e.time ∧ e.time - st.now < durMax := by
+    refine SimQueue.allE_mono (p' := fun e => st.now ≤ e.time ∧ e.time - st.now < durMax) hx.fut ?_
+    intro e he
+    have := reach_ge delay e
+    have := hp.lt
+    exact ⟨he.1, by omega⟩
+  have hr' : st.sq.AllE fun e => st.now ≤ e.time ∧ e.time - st.now ≤ durMax :=
+    SimQueue.allE_mono hr (fun e he => ⟨he.1, by omega⟩)
+  obtain ⟨next, st1, hpn⟩ := pickNext_progress (pickMeasure st) hx.nm hx.nq hx.wf hl hr
+  obtain ⟨e1, e2, e3, e4, e5, qi, hpop, hmin⟩ := pickNext_exact _ _ _ _ hx.nm hx.nq hx.wf hr' hpn
+  have hpkt := (pickNext_nomach _ _ _ _ hx.nm hpn).2
+  obtain ⟨ho1, hall1, hpk1, hmin1⟩ := SimQueue.pop_spec0 hx.ord hpop
+  have hfn := (hall1 _ hx.fut).2
+  have hcnt1 := fun P => SimQueue.pop_tcount0 P hpop
+  -- the window count of a TunnelSent is within the limit
+  have hcount : next.event = .tunnelSent → ((winOf st1.net next.client).add next.time).1 ≤ st1.net.ppsLimit := by
+    intro hev
+    rw [e3, hx.nq.lm]
+    obtain ⟨w1, w2, w3⟩ := hx.win next.client
+    have hle : ∀ o ∈ (winOf st.net next.client).stamps, o ≤ next.time := fun o ho => by
+      have := w3 o ho; omega
+    rw [(window_add_spec _ next.time w2 hle).1, w1]
+    have hts : isTS next = true := by simp [isTS, hev]
+    have hin : ∀ p : Int → Bool, p next.time = true →
+        (winOf st.net next.client).stamps.countP p + 1 ≤ (L next.client).countP p := by
+      intro p hpt
+      have hb := hx.bud next.client p
+      have hc := hcnt1 (sendPend next.client p)
+      have : sendPend next.client p next = true := by simp [sendPend, hts, hpt]
+      rw [this] at hc
+      simp only [b2n, if_true] at hc
+      omega
+    have hmem : next.time ∈ L next.client := by
+      have := hin (fun x => x == next.time) (by simp)
+      have hpos : 0 < (L next.client).countP (fun x => x == next.time) := by omega
+      obtain ⟨z, hz, hzz⟩ := List.countP_pos_iff.1 hpos
+      have : z = next.time := by simpa using hzz
+      exact this ▸ hz
+    have h1 := hin (fun x => decide (x ≤ next.time) && inWin Gen.SIM_BOTTLENECK_WINDOW_NS next.time x)
+      (by simp [inWin, dsince, durSince])
+    have h2 := hstat next.client next.time hmem
+    omega
+  have hnb : ¬ next.time < st1.now := by rw [e4]; omega
+  have hnow : (if next.time > st1.now then next.time else st1.now) = next.time := by
+    rw [e4]; split <;> omega
+  obtain ⟨na, sq, net, hs⟩ := simNetworkStack_ok (sq := st1.sq)
+    (byp := (({ st1 with now := next.time } : St σ).side next.client).blockingBypassable)
+    (net := st1.net) (now := next.time) hpkt hcount
+  obtain ⟨acts, st2, ht, hf1, hf2⟩ := triggerUpdate_ok ρ
+    ({ ({ st1 with now := next.time } : St σ) with sq := sq, net := net } : St σ) next
+    (by simp only [e1]; exact hx.nm.qc) (by simp only [e2]; exact hx.nm.qs)
+    (by simp only [e1]; exact hp.fc) (by simp only [e2]; exact hp.fs) hpkt
+  have hstep : step ρ st = .ok (some (⟨next, na, acts⟩, st2)) := by
+    unfold step
+    simp only [hpn, Option.getD_some, bind, Except.bind, hnb, if_false, hnow, hs, ht, pure, Except.pure]
+  refine ⟨_, _, hstep, ?_⟩
+  obtain ⟨hx', _, _⟩ := step_exact ρ hstat hx hstep
+  have hsp := step_spec ρ hstep
+  exact ⟨hx', hf1, hf2, by have := hp.lt; omega⟩
+
 end
 
 end Mb.Sim
